@@ -2574,6 +2574,16 @@ func (p *Parser) caseItems(stop string) (items []*CaseItem) {
 				p.curErr("case patterns must be separated with %#q", or)
 			}
 		}
+		if len(ci.Patterns) == 0 && p.err == nil {
+			// The input ended right after the optional '(' of an item;
+			// an item without patterns must never reach the tree, as
+			// [CaseItem.Pos] and the printer rely on the first pattern.
+			if p.recoverError() {
+				ci.Patterns = append(ci.Patterns, p.wordOne(&Lit{ValuePos: recoveredPos}))
+			} else {
+				p.curErr("case patterns must consist of words")
+			}
+		}
 		old := p.preNested(switchCase)
 		p.next()
 		ci.Stmts, ci.Last = p.stmtList(stop)
